@@ -79,7 +79,7 @@ class Zero:
     def __repr__(self):
         return "zero"
 
-    adjoint = __neg__ = __rmul__ = __mul__
+    adjoint = __neg__ = __pos__ = __rmul__ = __matmul__ = __rmatmul__ = __mul__
 
     # Let numpy arrays defer to the methods above instead of broadcasting over the sentinel.
     __array_ufunc__ = None
